@@ -319,7 +319,8 @@ class GeoBoxBase:
             roi = numpy.s_[ty : ty + ny, tx : tx + nx]
 
         if isinstance(roi, int):
-            roi = (slice(roi, roi + 1), slice(None, None))
+            # keep it as int: slice(-1, 0) is empty, roi_normalise deals with negative indexes
+            roi = (roi, slice(None, None))
 
         if isinstance(roi, slice):
             roi = (roi, slice(None, None))
